@@ -339,3 +339,7 @@ M("c02-twin-warn-ignore-scoped", "C02", C, "        self._check_grid()\n        
 # ------------------------------------------------------------------ C03.draw / C07.fresh (round-3 seed C03-r3b)
 M("c03-draw-cached", ["C03", "C07"], J, "        return self.inverse(self.model.draw_sample(n))", "        if self._sample is not None and len(self._sample) >= n:\n            return self._sample[:n]\n        return self.inverse(self.model.draw_sample(n))",
   rules={"C03": ["C03.draw"], "C07": ["C07.fresh"]}, what="draw_sample serves the remembered sample")
+
+# ------------------------------------------------------------------ C11.writers: who may write a parameter attribute (receiver-aware)
+M("c11-writer-foreign", "C11", J, "                samples[:, i] = dist.draw_sample(n, random_state=random_state)", "                dist.alpha = 1.0\n                samples[:, i] = dist.draw_sample(n, random_state=random_state)", rules=["C11.writers"], what="the joint sampler writes a parameter of a distribution")
+M("c11-writer-helper", "C11", D, "            dist = copy.deepcopy(self.distribution)\n", "            dist = copy.deepcopy(self.distribution)\n            setattr(dist, self.param_names[0], 1.0)\n", rules=["C11.writers"], what="setattr on a distribution outside its class")
